@@ -1416,10 +1416,12 @@ namespace awkward {
     /// RegularArray nodes to satisfy a given `shape`.
     ///
     /// The `shape` is intended to match a
-    /// {@link SliceArrayOf#shape SliceArray::shape}.
+    /// {@link SliceArrayOf#shape SliceArray::shape}; `outlen` is the length
+    /// of the result, needed when a dimension of `shape` is zero.
     const ContentPtr
       getitem_next_array_wrap(const ContentPtr& outcontent,
-                              const std::vector<int64_t>& shape) const;
+                              const std::vector<int64_t>& shape,
+                              int64_t outlen = 0) const;
 
     /// @brief Internal function to convert #parameters into a string fragment
     /// for #tostring.
